@@ -326,15 +326,16 @@ CHECKS["C20"] = {
               "drawn position; handlers failing at their j-th invocation) x inbound sequences of 1-60 mixed envelopes, driven through ListenServer, ListenClient and a real Server over the in-process "
               "and TCP transports, compared with a first-match dispatch model per kind: the earliest registered matching handler, exactly once, with the envelope as sent; nothing for unmatched "
               "envelopes while later ones are still dispatched; after a handler error no further invocation, Listen returns that error, and under Server the client observes a finished session. "
-              "Plus all tables of up to 3 handlers over 5 predicate shapes for each kind (exhaustive)."),
+              "Plus all tables of up to 3 handlers over 5 predicate shapes for each kind (exhaustive). Plus (TestC20Builder) the ping auto-reply of ServerBuilder as one more request handler: every registration order of up to 2 (thorough: 3) recording handlers (catch-all, ping only, everything but ping, never) around AutoReplyPings(), with pings and other requests on a real in-process session: each request reaches exactly the first handler that accepts it."),
     "note": "Cross-kind order is not asserted (the dispatch loop selects over four streams); per kind the invocation log must be a prefix of the model's, complete when no handler failed.",
     "technique": "model-based property testing (rapid) + exhaustive small tables against a first-match dispatch model, in virtual time",
     "rule": "case = (handler tables, inbound sequence, entry point, transport). Non-trivial: some envelope skips the first handler of its kind in a table with >=2 handlers. Distinct by SHA-1 of the case.",
     "assumptions": TRANSPORT_ASSUMPTIONS,
-    "exhaustive_jobs": ["TestC20Tables"],
+    "exhaustive_jobs": ["TestC20Tables", "TestC20Builder"],
     "jobs": [
         {"test": "TestC20Replay", "kind": "plain"},
         {"test": "TestC20Tables", "kind": "plain", "shards": 4, "timeout": (300, 1500)},
+        {"test": "TestC20Builder", "kind": "plain", "shards": (1, 4), "timeout": (300, 1500)},
         {"test": "TestC20", "kind": "rapid", "shards": 8, "checks": (800, 25000), "timeout": (300, 3000)},
     ],
 }
